@@ -17,10 +17,10 @@
    their conclusions: the results are functions of the data alone. *)
 From Coq Require Import List NArith Arith Lia.
 From NV Require Import Io.Source Io.ReadExact Io.ReadExactProofs Io.BufReader Io.BufReaderProofs
-  Io.Prog Io.ProgProofs Io.IndexProg Io.IndexProgProofs Io.ProgCram Io.ProgRun Io.ProgRunProofs
+  Io.Prog Io.ProgProofs Io.IndexProg Io.IndexProgProofs Io.ProgCram Io.ProgRun Io.ProgRunProofs Io.CsiProg Io.CsiProgProofs Io.HeaderAdapter Io.HeaderAdapterProofs
   Io.FastaScan Io.FastaScanProofs Io.FastaIndex Io.FastaIndexProofs Io.FastqRead Io.FastqReadProofs Io.HeaderRead Io.HeaderReadProofs Io.BgzfRead Io.BgzfReadProofs Io.BedRead Io.BedReadProofs Io.BedBridge Io.TabRead Io.TabReadProofs Io.Run Io.RunProofs.
 From NV Require Fasta.Layout Fasta.Indexer Fasta.WholeFile Fasta.Fastq Bgzf.Frame Bgzf.Reader Bgzf.ReaderOps
-  Text.TextBase Text.BedRec Index.Layout Index.TextIndex Trunc.Stream Trunc.Cram CramIdx.AsyncQuery Bgzf.Crc32.
+  Text.TextBase Text.BedRec Index.Layout Index.CsiLayout Index.TextIndex Trunc.Stream Trunc.Cram CramIdx.AsyncQuery Bgzf.Crc32.
 Import ListNotations.
 
 (* every delivery script (any split sizes, any placement of Interrupted) is a simulating reader;
@@ -328,6 +328,34 @@ Theorem c12_header_reader_any_delivery :
 Proof. exact run_header_lines_spec. Qed.
 Print Assumptions c12_header_reader_any_delivery.
 
+(* ---- the same adapters used as a plain Read (`impl Read for header::Reader`: fill_buf, copy,
+   is_eol := false when the window was not taken whole, consume): over any simulating reader behind
+   a BufReader of any capacity >= 1 the adapter is ITSELF a simulating reader, of the header bytes
+   [hdr_text] of the data.  So read, read_exact, every read program, take(n).read_to_end and
+   read_to_end / read_to_string with whatever buffer sizes see exactly the header bytes, for every
+   delivery (c12_read_exact_sched_indep, c12_read_program_delivery_indep, ... apply with rd := h_read) *)
+Theorem c12_header_adapter_read_simulates :
+  forall (S : Type) (rd : reader S) (Rep : S -> list N -> nat -> Prop), simulates rd Rep ->
+  forall cap, 1 <= cap -> forall prefix,
+    simulates (h_read rd cap prefix) (rep_hdr Rep prefix).
+Proof. exact (@h_read_simulates). Qed.
+Print Assumptions c12_header_adapter_read_simulates.
+
+(* at a line start the header bytes are the raw header lines of c12_header_reader_raw_lines_chunk_indep *)
+Theorem c12_header_adapter_text_is_header_lines :
+  forall prefix k d, length d < k -> hdr_text k prefix true d = concat (fst (hdr_closed k prefix d)).
+Proof. exact hdr_text_is_hdr_closed. Qed.
+Print Assumptions c12_header_adapter_text_is_header_lines.
+
+(* read_to_end through the adapter on the scripted source: any script, any capacity >= 1, any
+   request size of read_to_end's buffer growth: the header bytes of the data *)
+Theorem c12_header_adapter_read_to_end_any_delivery :
+  forall prefix data sc cap chunk, 1 <= cap ->
+    fst (run_hdr_read_to_end prefix cap chunk (mkSource data sc))
+    = COk (hdr_text (Datatypes.S (length data)) prefix true data).
+Proof. exact run_hdr_read_to_end_spec. Qed.
+Print Assumptions c12_header_adapter_read_to_end_any_delivery.
+
 (* ---- bgzf::io::Reader over a chunked source.  read_frame_into (read_exact(18), BSIZE check,
    read_exact(rest)) over ANY simulating reader returns what C01's whole-buffer [Reader.read_frame]
    returns on the data: the same frame and rest, or the same end / error *)
@@ -612,6 +640,26 @@ Theorem c12_fai_reader_any_delivery :
     run_fai cap (mkSource data sc) = (cres_of (fst (run_pure p data)), length (snd (run_pure p data))).
 Proof. exact run_fai_spec. Qed.
 Print Assumptions c12_fai_reader_any_delivery.
+
+(* and that result is C17's byte-based whole-buffer read_fai of the data (after /repo 24986d3) *)
+Theorem c12_fai_reader_is_c17_read_fai :
+  forall data, opt_of (run_pure (p_fai (Datatypes.S (length data))) data) = TextIndex.read_fai data.
+Proof. exact p_fai_is_read_fai. Qed.
+Print Assumptions c12_fai_reader_is_c17_read_fai.
+
+(* the CSI / tabix header reader (csi read_header: six i32 fields with their conversions, then
+   l_nm and the NUL-terminated names read through BufReader::new(reader.take(l_nm))): under any
+   delivery its result is C17's whole-buffer p_header of the data, with the same rest *)
+Theorem c12_csi_header_reader_any_delivery :
+  forall data sc cap chunk,
+    run_csi_header cap chunk (mkSource data sc)
+      = (cres_of (fst (run_pure g_header data)), length (snd (run_pure g_header data)))
+    /\ match run_pure g_header data with
+       | (RVal h, r) => CsiLayout.p_header data = Some (h, r)
+       | (RErr e, _) => CsiLayout.p_header data = None /\ e <> Stream.OutOfFuel
+       end.
+Proof. intros data sc cap chunk. split; [apply run_csi_header_spec|apply g_header_is_p_header]. Qed.
+Print Assumptions c12_csi_header_reader_any_delivery.
 
 (* BCF record reader (read_exact_or_eof(4), read_u32_le, take(l_shared).read_to_end, the site
    indexer -- a parameter --, take(l_indiv).read_to_end): one record under any delivery is C13's
